@@ -280,6 +280,9 @@ def _field_to_iso8583(bit_config, field_value, encoding=DEFAULT_ENCODING):
 
     if length_size > 0:
         field_length = len(field_value)
+        if field_length > 10 ** length_size - 1:
+            raise Iso8583DataError(
+                f'Field value of length {field_length} is too long for a {bit_config["field_type"]} field')
         output += format(field_length, '0' + str(length_size)).encode(encoding)
 
     if isinstance(field_value, bytes):
